@@ -173,6 +173,14 @@ structure DSt where
   time   : Nat := 0
   iters  : Nat := 0
 
+/-- `if cond: ap.add(v)` -/
+def noteAp (st : DSt) (cond : Bool) (v : Nat) : DSt :=
+  if cond then { st with ap := addSet st.ap v } else st
+
+/-- `if cond: bridge_list.append(e)` -/
+def noteBr (st : DSt) (cond : Bool) (e : Nat × Nat) : DSt :=
+  if cond then { st with br := st.br ++ [e] } else st
+
 def dfs (adj : Nat → List Nat) : Nat → Nat → DSt → DSt
   | 0, _, st => st
   | fuel+1, v, st =>
@@ -187,10 +195,12 @@ def dfs (adj : Nat → List Nat) : Nat → Nat → DSt → DSt
         let lw := aget st.low w 0
         let st := { st with low := aset st.low v (min (aget st.low v 0) lw) }
         let dv := aget st.disc v 0
-        let st := match aget st.parent v none with
-          | none => if children + 1 ≥ 2 then { st with ap := addSet st.ap v } else st
-          | some _ => if lw ≥ dv then { st with ap := addSet st.ap v } else st
-        let st := if lw > dv then { st with br := st.br ++ [if v < w then (v, w) else (w, v)] } else st
+        -- root: two or more DFS children; non-root: low[w] >= discovery[v]
+        let isAp := match aget st.parent v none with
+          | none => decide (children + 1 ≥ 2)
+          | some _ => decide (lw ≥ dv)
+        let st := noteAp st isAp v
+        let st := noteBr st (decide (lw > dv)) (if v < w then (v, w) else (w, v))
         (st, children + 1)
       else if aget st.parent v none != some w then
         ({ st with low := aset st.low v (min (aget st.low v 0) (aget st.disc w 0)) }, children)
